@@ -242,7 +242,8 @@ def sizes_for(need, quick, low_only=False):
     sizes |= set(range(0, need, max(64, (need // 150) // 8 * 8)))
     sizes |= set(range(0, min(need, 4096), 32))
   else:
-    sizes |= set(range(0, need, 64))
+    # every 64 bytes up to 1500 sizes per scene (scenes needing more than 96 KB are swept proportionally coarser)
+    sizes |= set(range(0, need, max(64, (need // 1500) // 8 * 8)))
     sizes |= set(range(0, min(need, 8192), 8))
   return sorted(x for x in sizes if x >= 0)
 
